@@ -29,70 +29,7 @@ class Result:
         return not self.undecided and all(o.status == "discharged" for o in self.obligations)
 
 
-# ------------------------------------------------------------------------------ equalise segment lists
-def equalise(ctx, a, b, depth=0):
-    """z3 condition for equality of two segment lists modulo the spec's unfoldings.
-    Raises Mismatch when the structures cannot be aligned."""
-    from spec import kafka
-    a, b = list(normalise(a)), list(normalise(b))
-    conds = []
-    guard = 0
-    while a and b:
-        guard += 1
-        if guard > 400:
-            raise Undecided("equalise did not converge")
-        x, y = a[0], b[0]
-        try:
-            c = segs_eq([x], [y])
-            # same-kind heads
-            if isinstance(x, Lit) and isinstance(y, Lit) and len(x.b) != len(y.b):
-                n = min(len(x.b), len(y.b))
-                if x.b[:n] != y.b[:n]:
-                    return False
-                if len(x.b) > n:
-                    a[0] = Lit(x.b[n:]); b.pop(0)
-                else:
-                    b[0] = Lit(y.b[n:]); a.pop(0)
-                continue
-            if c is False:
-                return False
-            if c is not True:
-                conds.append(c)
-            a.pop(0); b.pop(0)
-            continue
-        except Mismatch:
-            pass
-        # a Lit against single bytes: split the literal
-        if isinstance(x, Lit) and len(x.b) > 1 and not isinstance(y, Enc):
-            a[0:1] = [Lit(x.b[:1]), Lit(x.b[1:])]
-            continue
-        if isinstance(y, Lit) and len(y.b) > 1 and not isinstance(x, Enc):
-            b[0:1] = [Lit(y.b[:1]), Lit(y.b[1:])]
-            continue
-        # unfold an encoding (prefer the one that is not primitive)
-        for side, s in ((a, x), (b, y)):
-            if isinstance(s, Enc) and s.codec[0] not in ("be", "le", "bool", "f64"):
-                try:
-                    side[0:1] = list(normalise(kafka.unfold(ctx, s)))
-                    break
-                except Undecided:
-                    continue
-        else:
-            raise Mismatch(f"cannot align {x!r} with {y!r}")
-    rest = a or b
-    if rest:
-        ln = total_len(rest)
-        if isinstance(ln, int):
-            if ln:
-                return False
-        else:
-            # remaining encodings must all be empty
-            if ctx.entails(zint(ln) > 0):
-                return False
-            conds.append(zint(ln) == 0)
-    if not conds:
-        return True
-    return z3.And(*[tobool(c) for c in conds])
+from .core import equalise  # noqa: E402,F401
 
 
 # ------------------------------------------------------------------------------ discharge
@@ -218,8 +155,15 @@ def explore_unit(res, run):
             res.effects.extend(ctx.effects)
             res.undecided.append((res.unit, f"iface: {ex}"))
         except Undecided as ex:
+            if ctx.check(timeout=SOLVER_TIMEOUT_MS) == z3.unsat:
+                continue        # the path is infeasible: nothing to decide
             res.undecided.append((res.unit, str(ex)))
             res.effects.extend(ctx.effects)
+            import os
+            if os.environ.get("KVC_DEBUG"):
+                import traceback
+                traceback.print_exc()
+                print("PC:", ctx.pc)
         except Mismatch as ex:
             # structural mismatch: a failed obligation without a formula; refute by sampling
             ob = Obligation(f"{res.unit}/structure", ctx.pc, z3.BoolVal(False), info={"mismatch": str(ex)})
